@@ -576,7 +576,7 @@ def job_bounded(tier, rng, dim):
                                         run('stiefel_polar', lambda x: ms.to_stiefel_polar(x, dim, rank), n_st, lambda R, t: _stiefel_ok(R, dim, rank, 1e-7), backend, ftype, batch, tiny, real=real, rank=rank)
                                 n_ch = (dim * rank - (rank * (rank + 1)) // 2) * (1 if real else 2)
                                 if n_ch > 0:
-                                    run('stiefel_choleskyL', lambda x: ms.to_stiefel_choleskyL(x, dim, rank), n_ch, lambda R, t: _stiefel_ok(R, dim, rank, t * 100), backend, ftype, batch, min(scale, 10.0 if ftype is np.float64 else 1.0), real=real, rank=rank)
+                                    run('stiefel_choleskyL', lambda x: ms.to_stiefel_choleskyL(x, dim, rank), n_ch, lambda R, t: _stiefel_ok(R, dim, rank, t * 100), backend, ftype, batch, min(scale, (10.0 if rank <= 4 else 1.0) if ftype is np.float64 else 1.0), real=real, rank=rank)       # the unit-lower-triangular factor has condition number ~ scale^rank: |theta| <= 10 is within float64 reach only for rank <= 4 (measured: error 4e-5 at rank 6)
                         for tr0 in (False, True):
                             for n1 in (False, True):
                                 def chk(R, t, tr0=tr0, n1=n1):
